@@ -185,3 +185,27 @@ def install2(R):
         assumptions=["the table file is a whole value on the ghost file system"],
     )
     return R
+
+
+def install_signatures(R):
+    """Positional order of the public crop factories (a caller may pass these positionally): ground obligations on the real source."""
+    from pyvc.state import VC
+    PINNED = {
+        "xyzpy/gen/farming.py:Runner.Crop": ["self", "name", "parent_dir", "save_fn", "batchsize", "num_batches"],
+        "xyzpy/gen/farming.py:Harvester.Crop": ["self", "name", "parent_dir", "save_fn", "batchsize", "num_batches"],
+        "xyzpy/gen/farming.py:Sampler.Crop": ["self", "name", "parent_dir", "save_fn", "batchsize", "num_batches"],
+    }
+
+    def ground(eng, pid):
+        vcs = []
+        for key, want in PINNED.items():
+            m, node = eng.repo.lookup(key)
+            got = [a.arg for a in (node.args.posonlyargs + node.args.args)] if node is not None else None
+            # new options may be appended; the documented ones keep their positions
+            ok = got is not None and got[:len(want)] == want
+            vcs.append(VC(f"positional_parameters_keep_their_places[{key.split(':')[1]}]", "lemmas:PublicSignatures", [], z3.BoolVal(ok), kind="lemma", props=[pid],
+                          meta={"found": got, "pinned": want}))
+        return vcs
+    for pid in ("C06", "C07"):
+        R.extra_checks.setdefault(pid, []).append(ground)
+    return R
